@@ -6,7 +6,7 @@ LEVEL = 'other'
 FILES = ['pytrs/parser/trs/trs.py', 'pytrs/parser/config/master_config.py', 'pytrs/parser/tract/tract.py',
          'pytrs/parser/plssdesc/plss_preprocess.py', 'pytrs/parser/plssdesc/plss_parse.py']
 ASSUMPTIONS = [
-    'probes: 8 Twp/Rge/Sec strings (valid, upper case, error, undefined, near-miss, empty), 2 tract descriptions, 4 PLSS '
+    'probes: Twp/Rge/Sec built from direction-less numbers under four pairs of MasterConfig defaults (expected values from the specification), 8 Twp/Rge/Sec strings (valid, upper case, error, undefined, near-miss, empty), 2 tract descriptions, 4 PLSS '
     'descriptions (incl. missing directions, which depend on MasterConfig); prior activity is a symbolic sequence over 9 '
     'operation kinds (other parses, MasterConfig changed and restored, cache cleared / off / on / pre-warmed, returned '
     'dicts and lists mutated, the same probe parsed under other defaults)',
@@ -28,6 +28,9 @@ def ob_history(ob):
         pytrs.TRS._clear_cache()
         pytrs.TRS._USE_CACHE = True
         base = {pi: observe(pi) for pi in probes}
+        if N_PROBES - 1 in base:
+            from props.c15_ref import expected_defaults
+            base[N_PROBES - 1] = expected_defaults()      # the defaults probe is held against the specification, not a first run
 
     fixed_first = ob.params.get('first')
     fixed_second = ob.params.get('second')
@@ -35,10 +38,17 @@ def ob_history(ob):
     plist = list(probes)
 
     def run(ops):
+        # only the choice of operations is symbolic; the operations and the probes are concrete and run natively, because under
+        # tracing CrossHair bypasses functools.lru_cache (a memo that leaks state would neither be filled nor consulted)
+        chosen = [fixed_first if (j == 0 and fixed_first is not None) else fixed_second if (j == 1 and fixed_second is not None)
+                  else choose(o, range(len(OPS))) for j, o in enumerate(ops)]
+        with NoTracing():
+            return run_concrete([int(c) for c in chosen])
+
+    def run_concrete(chosen):
         save = (pytrs.TRS._USE_CACHE, pytrs.MasterConfig.default_ns, pytrs.MasterConfig.default_ew)
         try:
-            for j, o in enumerate(ops):
-                op = fixed_first if (j == 0 and fixed_first is not None) else fixed_second if (j == 1 and fixed_second is not None) else choose(o, range(len(OPS)))
+            for op in chosen:
                 if OPS[op] in PER_PROBE:
                     for pi in plist:
                         apply_op(op, pi)
